@@ -11,6 +11,7 @@ Layers
   4. the XPath layer: `iterCheck` (iter_comparison_data), `generalCmp`, `valueCmp`, `ebvList`,
      `ebvIter`, `andE/orE/notE/ifE`
 -/
+import EPV.Spec.Timeline
 namespace EPV.Cmp
 
 /-! ## 1. numbers -/
@@ -111,14 +112,23 @@ def numericNotEqual (a b : D) : Bool := if D.eq a b then false else !isclose a b
 
 abbrev Str := List Nat   -- code points
 
-/-- payload of a Date10 / DateTime10 / Time object (years 1..9999): `year` = `_year` (the year of the
-local date), `t` = the local wall-clock reading of `_dt` in seconds since 0001-01-01T00:00:00,
-`tz` = the explicit timezone offset in minutes (none = no timezone).  xs:time values sit on 2000-01-01. -/
+/-- payload of a Date10 / DateTime10 / Time object (years 1..9999): `t` = the local wall-clock
+reading of `_dt` in seconds since 0001-01-01T00:00:00, `tz` = the explicit timezone offset in minutes
+(none = no timezone).  xs:time values sit on 2000-01-01. -/
 structure DT where
-  year : Int
   t : Int
   tz : Option Int
   deriving DecidableEq, Repr, Inhabited
+
+/-- `_year`: the proleptic-Gregorian year of the local date — the calendar of C11's specification
+(EPV/Spec/Timeline.lean `yearOfDay`, day 0 = 0001-01-01), imported read-only -/
+def DT.year (d : DT) : Int := EPV.Timeline.yearOfDay (d.t / 86400)
+
+/-- `Timezone.__init__` (datetime.py:49-55) accepts offsets between -14:00 and +14:00 only -/
+def DT.tzOK (d : DT) : Bool :=
+  match d.tz with
+  | none => true
+  | some z => decide (-840 ≤ z) && decide (z ≤ 840)
 
 /-- the instant on the UTC timeline; a missing timezone is read as UTC
 (datetime.py:284-291 `replace(tzinfo=_UTC_TIMEZONE)`, `todelta`) -/
@@ -359,7 +369,7 @@ def Atom.isDT : Atom → Bool | .date _ => true | .dtm _ => true | .time _ => tr
 def Atom.isBin : Atom → Bool | .hex _ => true | .b64 _ => true | _ => false
 def Atom.durVal : Atom → Int × Int
   | .dur m s => (m, s) | .ymd m => (m, 0) | .dtd s => (0, s) | _ => (0, 0)
-def Atom.dt : Atom → DT | .date v => v | .dtm v => v | .time v => v | _ => ⟨0, 0, none⟩
+def Atom.dt : Atom → DT | .date v => v | .dtm v => v | .time v => v | _ => ⟨0, none⟩
 def Atom.binVal : Atom → List Nat | .hex b => b | .b64 b => b | _ => []
 /-- `QName.qname` -/
 def qnameStr (pre loc : Str) : Str := if pre.isEmpty then loc else pre ++ [58] ++ loc
